@@ -1,8 +1,9 @@
 import PptxModel.Drv.C19
 import PptxModel.Drv.C17
+import PptxModel.Drv.C14
 open Pptx
 
-def handlers : List (List String → Option String) := [Drv.C19.handle, Drv.C17.handle]
+def handlers : List (List String → Option String) := [Drv.C19.handle, Drv.C17.handle, Drv.C14.handle]
 
 def handle (line : String) : String :=
   let toks := (line.trimAscii.toString.splitOn " ")
